@@ -950,13 +950,19 @@ func c09Settle(r *sysRun, st *c09State, busy bool, final bool) {
 		} else if !m.apply(ev.Tag) {
 			st.exact = false
 		}
-		if m.jumping && (len(m.list) == 0 || burstQueryChanged) {
+		loaded := false // has the session been at rest since it started? (before that the first list may not be there)
+		for k := 0; k < i; k++ {
+			if r.plan.Events[k].Kind == "settle" {
+				loaded = true
+			}
+		}
+		if m.jumping && (len(m.list) == 0 || burstQueryChanged || !loaded) {
 			// the renderer leaves jump mode again when it finds nothing to label; a key that follows before
 			// it got there is still swallowed - only a settle in between makes the outcome definite
 			if len(m.list) == 0 {
 				m.jumping = false
 			}
-			if burstQueryChanged || !(i+1 < len(r.plan.Events) && r.plan.Events[i+1].Kind == "settle") {
+			if burstQueryChanged || !loaded || !(i+1 < len(r.plan.Events) && r.plan.Events[i+1].Kind == "settle") {
 				st.exact = false
 			}
 		}
